@@ -32,22 +32,31 @@
                  suppressed -- every future of the snapshot is waited for, shutdown() never
                  raises (label LSdRaise is never enabled)
    PopenFuture.cancel(): `if not self.is_running(): return` -- a no-op while
-   `self.process is None` or after the process has terminated; otherwise kills it.  *)
+   `self.process is None` or after the process has terminated; otherwise the escalation
+   terminate() (SIGTERM) -> `<parent>.wait(timeout=0.5)` -> kill() (SIGKILL) if still running.
+   A solver process may ignore SIGTERM ([stub], a job parameter): then the grace-period wait
+   raises the TimeoutExpired of its library; whether that exception is suppressed on the spot
+   (-> force kill), caught by the outer `except` (-> force kill skipped, process survives) or
+   leaves cancel() (-> process survives AND the caller sees an exception: the worker's finally
+   block is left before set_result, a cancel task swallows it) is decided by the except / suppress
+   lists regenerated from processes.py (Gen/GenCancel.v, translator T-cancel).  *)
 From Coq Require Import List Arith Bool.
-From HV Require Import Spec.ExecSpec Gen.GenSolveLow.
+From HV Require Import Spec.ExecSpec Gen.GenSolveLow Gen.GenCancel.
 Import ListNotations.
 
 Inductive exn := ETimeout | EOther.
 Inductive proc_t := PNone | PRun | PDead.   (* self.process: None / running / terminated *)
 Inductive spc_t := SCheck | SAcquire | SRecheck | SAppend | SStart | SRelease | SWait
                  | SGot (v : verdict) | SUnlock | SRejected.
-Inductive wpc_t := WNew | WStarted | WComm | WFinally | WSetRes | WDone.
+Inductive wpc_t := WNew | WStarted | WComm | WFinally | WSetRes | WDone
+                 | WDead.   (* the worker thread died with an exception before set_result *)
 Inductive dpc_t := DSet | DAcquire | DCancel (pending : list nat) | DSnap
                  | DUnlock (pending : list nat) | DJoin (pending : list nat) | DDone.
 Inductive owner := OSub (j : nat) | OSd (k : nat).
 
 Record job := mkJob {
   tmo : bool;             (* PopenFuture.timeout is not None *)
+  stub : bool;            (* the solver process ignores SIGTERM (only SIGKILL ends it) *)
   spc : spc_t;            (* program counter of the submitting thread *)
   wpc : wpc_t;            (* program counter of the worker thread (WNew: not started) *)
   proc : proc_t;          (* self.process *)
@@ -66,10 +75,10 @@ Record state := mkState {
   sds : list sd
 }.
 
-Definition init_job (t : bool) : job := mkJob t SCheck WNew PNone None None 0.
+Definition init_job (c : bool * bool) : job := mkJob (fst c) (snd c) SCheck WNew PNone None None 0.
 Definition init_sd (w : bool) : sd := mkSd w DSet.
-Definition init (tmos waits : list bool) : state :=
-  mkState false None [] (map init_job tmos) (map init_sd waits).
+Definition init (cfgs : list (bool * bool)) (waits : list bool) : state :=
+  mkState false None [] (map init_job cfgs) (map init_sd waits).
 
 (* ---- what solve_low_level returns for a finished future ---------------------
    result() re-raises `_exception`; `except subprocess.TimeoutExpired` maps to
@@ -88,14 +97,31 @@ Definition low_level (jb : job) : verdict :=
 
 (* ---- setters ---------------------------------------------------------------- *)
 Definition set_spc (jb : job) (p : spc_t) : job :=
-  mkJob (tmo jb) p (wpc jb) (proc jb) (exc jb) (out jb) (sets jb).
+  mkJob (tmo jb) (stub jb) p (wpc jb) (proc jb) (exc jb) (out jb) (sets jb).
 Definition set_w (jb : job) (w : wpc_t) (p : proc_t) (e : option exn) (o : option answer) (n : nat) : job :=
-  mkJob (tmo jb) (spc jb) w p e o n.
-Definition kill (jb : job) : job :=      (* PopenFuture.cancel() *)
+  mkJob (tmo jb) (stub jb) (spc jb) w p e o n.
+
+(* ---- PopenFuture.cancel() ------------------------------------------------------
+   the exception of the grace-period wait on a process that ignored SIGTERM *)
+Definition grace_exn : exn_class := wait_timeout_exn gen_grace_receiver.
+Definition grace_suppressed : bool := catches gen_cancel_suppressed grace_exn.
+Definition grace_handled : bool := catches gen_cancel_handlers grace_exn.
+(* the process of jb survives cancel() *)
+Definition survives (jb : job) : bool := stub jb && negb grace_suppressed.
+(* cancel() on jb terminates with an exception *)
+Definition kill_raises (jb : job) : bool :=
   match proc jb with
-  | PRun => mkJob (tmo jb) (spc jb) (wpc jb) PDead (exc jb) (out jb) (sets jb)
+  | PRun => survives jb && negb grace_handled
+  | _ => false
+  end.
+Definition kill (jb : job) : job :=      (* the effect of PopenFuture.cancel() on the process *)
+  match proc jb with
+  | PRun => if survives jb then jb
+            else mkJob (tmo jb) (stub jb) (spc jb) (wpc jb) PDead (exc jb) (out jb) (sets jb)
   | _ => jb
   end.
+(* run(): `except ...: self._exception = e` around communicate() *)
+Definition timeout_caught : bool := catches gen_run_handlers communicate_timeout_exn.
 
 Fixpoint set_nth {A} (n : nat) (x : A) (l : list A) : list A :=
   match l, n with
@@ -201,7 +227,9 @@ Definition step (st : state) (l : label) : option state :=
         | _, _ => None end)
   | LCommTimeout j =>
       on_job st j (fun jb => match wpc jb with
-        | WComm => if tmo jb then Some (set_w jb WFinally (proc jb) (Some ETimeout) (out jb) (sets jb)) else None
+        | WComm => if tmo jb
+                   then Some (set_w jb WFinally (proc jb) (if timeout_caught then Some ETimeout else exc jb) (out jb) (sets jb))
+                   else None
         | _ => None end)
   | LCommExc j =>
       on_job st j (fun jb => match wpc jb with
@@ -210,7 +238,11 @@ Definition step (st : state) (l : label) : option state :=
   | LFinally j =>
       on_job st j (fun jb => match wpc jb with
         | WFinally => let jb' := kill jb in
-                      Some (set_w jb' WSetRes (proc jb') (exc jb') (out jb') (sets jb'))
+                      (* an exception of cancel() leaves the finally block before set_result,
+                         unless the call is protected *)
+                      if kill_raises jb && negb gen_finally_guarded
+                      then Some (set_w jb' WDead (proc jb') (exc jb') (out jb') (sets jb'))
+                      else Some (set_w jb' WSetRes (proc jb') (exc jb') (out jb') (sets jb'))
         | _ => None end)
   | LSetResult j =>
       on_job st j (fun jb => match wpc jb with
@@ -289,7 +321,7 @@ Definition rank_spc (p : spc_t) : nat :=
   match p with SCheck => 7 | SAcquire => 6 | SRecheck => 5 | SAppend => 4 | SStart => 3 | SRelease => 2
              | SWait => 1 | SGot _ => 0 | SUnlock => 1 | SRejected => 0 end.
 Definition rank_wpc (w : wpc_t) : nat :=
-  match w with WNew => 10 | WStarted => 8 | WComm => 6 | WFinally => 4 | WSetRes => 2 | WDone => 0 end.
+  match w with WNew => 10 | WStarted => 8 | WComm => 6 | WFinally => 4 | WSetRes => 2 | WDone => 0 | WDead => 0 end.
 Definition rank_proc (p : proc_t) : nat := match p with PRun => 1 | _ => 0 end.
 Definition rank_job (jb : job) : nat := rank_spc (spc jb) + rank_wpc (wpc jb) + rank_proc (proc jb).
 Definition pre_append (jb : job) : nat :=
